@@ -317,6 +317,23 @@ breaks this proof) -/
 theorem init_inner_resets (c : Carry) : (initInner c).depth = 0 ∧ (initInner c).rc = RCtx.empty := by
   constructor <;> simp [initInner, Gen.initClearsFrames, Gen.initClearsReceipts]
 
+/-- The well-formedness assumption on instruction events (`Ev.wf`: only RVRT pushes a Revert receipt, an instruction
+never pushes a Panic or ScriptResult receipt), tied to the source instead of "by inspection": in the non-test code of
+fuel-vm/src a Revert receipt is built only in `flow.rs::revert`, reached only through `Interpreter::revert`, which only
+the RVRT instruction calls; a Panic receipt is built only in `append_panic_receipt`, called only from `run_program`;
+a ScriptResult receipt is built only in `run_program`. The two lists are regenerated on every run (translator outcome);
+a new construction or call site anywhere under fuel-vm/src changes them and breaks this proof. -/
+theorem special_receipts_built_only_where_assumed :
+    Gen.receiptBuilders =
+      [("panic", "interpreter/flow.rs", "append_panic_receipt"),
+       ("revert", "interpreter/flow.rs", "revert"),
+       ("script_result", "interpreter/executors/main.rs", "run_program")] ∧
+    Gen.receiptHelperCallers =
+      [(".revert", "interpreter/executors/opcodes_impl.rs", "RVRT::execute"),
+       ("append_panic_receipt", "interpreter/executors/main.rs", "run_program"),
+       ("revert", "interpreter/flow.rs", "revert")] := by
+  decide
+
 /-- a transaction on a reused interpreter runs exactly as on a fresh one — in particular a previous run that ended
 inside a nested call (revert, panic, out of gas: `depthAfter > 0`) does not make the next top-level RET "return from a call" -/
 theorem reused_interpreter_as_fresh (H : Bytes → Bytes) (sr : Final → Rcpt) (tmr : Rcpt) (c : Carry) (evs : List Ev) :
